@@ -162,8 +162,12 @@ fn mk_inline(cap: usize, neg: bool) -> (Repr, Model) {
 
 /// Arbitrary well-formed heap Repr with concrete capacity `cap`: symbolic length, sign, contents.
 fn mk_heap(cap: usize, neg: bool) -> (Repr, Model) {
-    let w: [Word; MAXW] = any();
     let len: usize = any();
+    mk_heap_len(cap, len, neg)
+}
+/// The same with the length given by the caller (symbolic or concrete).
+fn mk_heap_len(cap: usize, len: usize, neg: bool) -> (Repr, Model) {
+    let w: [Word; MAXW] = any();
     assume(len >= 3 && len <= cap && cap <= spec_max_compact(len));
     assume(w[len - 1] != 0);
     let layout = alloc::alloc::Layout::array::<Word>(cap).unwrap();
@@ -738,9 +742,19 @@ fn ord_signed(a: &Model, b: &Model) -> Ordering {
     }
 }
 
-fn body_eq_cmp_hash(ka: usize, an: bool, kb: usize, bn: bool) {
-    let (a, ma) = mk(ka, an);
-    let (b, mb) = mk(kb, bn);
+/// class (k, l): k = 1, 2 inline (l ignored); k >= 3 heap of capacity k holding exactly l words.  Capacity,
+/// length and sign are all concrete per call (four calls per harness, one per sign combination): slice
+/// comparison and hashing then run over slices of constant length.
+fn mk_kl(k: usize, l: usize, neg: bool) -> (Repr, Model) {
+    if k <= 2 {
+        mk_inline(k, neg)
+    } else {
+        mk_heap_len(k, l, neg)
+    }
+}
+fn body_eq_cmp_hash(ka: usize, la: usize, an: bool, kb: usize, lb: usize, bn: bool) {
+    let (a, ma) = mk_kl(ka, la, an);
+    let (b, mb) = mk_kl(kb, lb, bn);
     let same = ma.neg == mb.neg && ord_mag(&ma, &mb) == Ordering::Equal;
     assert!(same == model_eq(&ma, &mb)); // without leading zeros: same value <=> same sign and words
     assert!((a == b) == same);
@@ -764,7 +778,25 @@ fn body_eq_cmp_hash(ka: usize, an: bool, kb: usize, bn: bool) {
         assert!((p == q) == same);
     }
 }
-per_kind2_u!(body_eq_cmp_hash, 50;
-    vk_int_repr_eq_cmp_hash_i1_i1 = (1, 1), vk_int_repr_eq_cmp_hash_i1_i2 = (1, 2), vk_int_repr_eq_cmp_hash_i2_i1 = (2, 1),
-    vk_int_repr_eq_cmp_hash_i2_i2 = (2, 2), vk_int_repr_eq_cmp_hash_i1_h3 = (1, 3), vk_int_repr_eq_cmp_hash_h3_i2 = (3, 2),
-    vk_int_repr_eq_cmp_hash_h3_h3 = (3, 3), vk_int_repr_eq_cmp_hash_h3_h5 = (3, 5), vk_int_repr_eq_cmp_hash_h5_h4 = (5, 4));
+macro_rules! eq_cmp_hash {
+    ($($name:ident = (($ka:expr, $la:expr), ($kb:expr, $lb:expr))),* $(,)?) => {$(
+        #[cfg_attr(kani, kani::proof)]
+        #[cfg_attr(kani, kani::unwind(66))]
+        #[cfg_attr(not(kani), test)]
+        fn $name() {
+            match (any::<bool>(), any::<bool>()) {
+                (false, false) => body_eq_cmp_hash($ka, $la, false, $kb, $lb, false),
+                (false, true) => body_eq_cmp_hash($ka, $la, false, $kb, $lb, true),
+                (true, false) => body_eq_cmp_hash($ka, $la, true, $kb, $lb, false),
+                (true, true) => body_eq_cmp_hash($ka, $la, true, $kb, $lb, true),
+            }
+            cover();
+        }
+    )*};
+}
+eq_cmp_hash!(
+    vk_int_repr_eq_cmp_hash_i1_i1 = ((1, 0), (1, 0)), vk_int_repr_eq_cmp_hash_i1_i2 = ((1, 0), (2, 0)),
+    vk_int_repr_eq_cmp_hash_i2_i1 = ((2, 0), (1, 0)), vk_int_repr_eq_cmp_hash_i2_i2 = ((2, 0), (2, 0)),
+    vk_int_repr_eq_cmp_hash_i1_h3 = ((1, 0), (3, 3)), vk_int_repr_eq_cmp_hash_h3_i2 = ((3, 3), (2, 0)),
+    vk_int_repr_eq_cmp_hash_h3_h3 = ((3, 3), (3, 3)), vk_int_repr_eq_cmp_hash_h3_h5l3 = ((3, 3), (5, 3)),
+    vk_int_repr_eq_cmp_hash_h7l3_h4l4 = ((7, 3), (4, 4)), vk_int_repr_eq_cmp_hash_h5l4_h4l4 = ((5, 4), (4, 4)));
